@@ -189,6 +189,33 @@ def arith(op: str, a, b):
     return SInt(x + y if op == "+" else x - y)
 
 
+def mul(a, b):
+    a, b = lift(a), lift(b)
+    if isinstance(a, SFloat) or isinstance(b, SFloat):
+        return SFloat(z3.fpMul(RNE, to_float(a).t, to_float(b).t))
+    x, y = to_int(a), to_int(b)
+    w = x.w + y.w
+    return SInt(z3.SignExt(w - x.w, x.t) * z3.SignExt(w - y.w, y.t))
+
+
+def truediv(a, b):
+    """Python ``/``: float division; ZeroDivisionError is modelled by the caller."""
+    return SFloat(z3.fpDiv(RNE, to_float(a).t, to_float(b).t))
+
+
+def is_zero(v) -> SBool:
+    v = lift(v)
+    if isinstance(v, SFloat):
+        return SBool(z3.fpIsZero(v.t))
+    i = to_int(v)
+    return SBool(i.t == 0)
+
+
+def float_to_int(v: SFloat, width: int = 80) -> SInt:
+    """``int(float)``: truncation toward zero (caller models OverflowError/ValueError for inf/NaN)."""
+    return SInt(z3.fpToSBV(z3.RTZ(), v.t, z3.BitVecSort(width)))
+
+
 def py_abs(v):
     v = lift(v)
     if isinstance(v, SFloat):
@@ -227,6 +254,7 @@ class Interp:
     def __init__(self, stubs: dict[str, Callable] | None = None, max_depth: int = 8, prune: bool = False):
         self.stubs = stubs or {}
         self.prune = prune
+        self.int_width = 80
         self.max_depth = max_depth
         self.functions_encoded: set[str] = set()
         self.solver = z3.Solver()
@@ -437,6 +465,13 @@ class Interp:
                 raise Unsupported("tuple unpack")
             for t, x in zip(target.elts, v):
                 self.assign(t, x, st)
+        elif isinstance(target, ast.Attribute):
+            # attribute stores are recorded as effects of the path (the concrete object is shared by
+            # all paths and is not mutated; later reads in the same path do not see the store)
+            objs = [o for o, _s in self.eval(target.value, st)]
+            if len(objs) != 1 or is_sym(objs[0]):
+                raise Unsupported("attribute store on symbolic object")
+            st.effects.append(("setattr", objs[0], target.attr, v))
         else:
             raise Unsupported("assignment target")
 
@@ -464,7 +499,18 @@ class Interp:
             else:
                 yield self._resolve(node, st), st
         elif isinstance(node, ast.Attribute):
-            yield self._resolve(node, st), st
+            base = node
+            chain = []
+            while isinstance(base, ast.Attribute):
+                chain.append(base.attr)
+                base = base.value
+            if isinstance(base, ast.Name) and base.id in st.env and not is_sym(st.env[base.id]):
+                obj = st.env[base.id]
+                for attr in reversed(chain):
+                    obj = getattr(obj, attr)
+                yield obj, st
+            else:
+                yield self._resolve(node, st), st
         elif isinstance(node, ast.Tuple):
             yield from self._eval_many(node.elts, st, lambda vals, s: (tuple(vals), s))
         elif isinstance(node, ast.UnaryOp):
@@ -483,6 +529,8 @@ class Interp:
         elif isinstance(node, ast.BinOp) and isinstance(node.op, (ast.BitXor, ast.BitAnd, ast.BitOr)):
             yield from self._eval_many([node.left, node.right], st,
                                        lambda vals, s: (self.bitop(type(node.op), vals[0], vals[1]), s))
+        elif isinstance(node, ast.BinOp) and isinstance(node.op, (ast.Mult, ast.Div, ast.Pow)):
+            yield from self._muldiv(node, st)
         elif isinstance(node, ast.BinOp):
             if not isinstance(node.op, (ast.Add, ast.Sub)):
                 raise Unsupported(f"binop {type(node.op).__name__}")
@@ -507,6 +555,40 @@ class Interp:
             yield from self._call(node, st)
         else:
             raise Unsupported(f"expression {type(node).__name__}")
+
+    def _muldiv(self, node, st: State):
+        for res in self._eval_many([node.left, node.right], st, lambda vals, s: ("__vals__", vals, s)):
+            if isinstance(res[0], Raised):
+                yield res
+                continue
+            _t, (a, b), s = res
+            if not is_sym(a) and not is_sym(b):
+                try:
+                    if isinstance(node.op, ast.Mult):
+                        yield a * b, s
+                    elif isinstance(node.op, ast.Div):
+                        yield a / b, s
+                    else:
+                        yield a ** b, s
+                except Exception as e:  # noqa: BLE001
+                    yield Raised(type(e)), s
+                continue
+            if isinstance(node.op, ast.Mult):
+                yield mul(a, b), s
+            elif isinstance(node.op, ast.Pow):
+                if is_sym(b) or not isinstance(b, int) or not 1 <= b <= 3:
+                    raise Unsupported("power with non-constant exponent")
+                out = a
+                for _ in range(b - 1):
+                    out = mul(out, a)
+                yield out, s
+            else:
+                # Python raises ZeroDivisionError for a zero divisor (int or float)
+                for val, s2 in self.decide(s, is_zero(b)):
+                    if val:
+                        yield Raised(ZeroDivisionError), s2
+                    else:
+                        yield truediv(a, b), s2
 
     def _eval_many(self, nodes, st: State, k):
         def rec(i, vals, s):
@@ -603,6 +685,39 @@ class Interp:
             yield (to_float(args[0]) if is_sym(args[0]) else float(args[0])), st
         elif target is abs and len(args) == 1:
             yield (py_abs(args[0]) if is_sym(args[0]) else abs(args[0])), st
+        elif target is int and len(args) == 1 and isinstance(args[0], SFloat):
+            f = args[0]
+            for isnan, s1 in self.decide(st, SBool(z3.fpIsNaN(f.t))):
+                if isnan:
+                    yield Raised(ValueError), s1
+                    continue
+                for isinf, s2 in self.decide(s1, SBool(z3.fpIsInf(f.t))):
+                    if isinf:
+                        yield Raised(OverflowError), s2
+                    else:
+                        yield float_to_int(f, self.int_width), s2
+        elif target is int and len(args) == 1 and is_sym(args[0]):
+            yield to_int(args[0]), st
+        elif getattr(target, "__name__", "") == "sqrt" and getattr(target, "__module__", "") == "math" and len(args) == 1:
+            f = to_float(args[0])
+            neg = SBool(z3.And(z3.fpLT(f.t, fp_const(0.0)), z3.Not(z3.fpIsNaN(f.t))))
+            for val, s2 in self.decide(st, neg):
+                if val:
+                    yield Raised(ValueError), s2  # math domain error
+                else:
+                    yield SFloat(z3.fpSqrt(RNE, f.t)), s2
+        elif getattr(target, "__name__", "") == "isinf" and getattr(target, "__module__", "") == "math" and len(args) == 1:
+            yield (SBool(z3.fpIsInf(to_float(args[0]).t)) if is_sym(args[0]) else target(args[0])), st
+        elif getattr(target, "__name__", "") == "isnan" and getattr(target, "__module__", "") == "math" and len(args) == 1:
+            yield (SBool(z3.fpIsNaN(to_float(args[0]).t)) if is_sym(args[0]) else target(args[0])), st
+        elif target in (max, min) and len(args) == 2 and anysym:
+            # Python: max(a, b) returns b only if b > a (NaN-insensitive first argument wins)
+            a, b = args
+            c = compare(">" if target is max else "<", b, a)
+            for val, s2 in self.decide(st, c):
+                yield (b if val else a), s2
+        elif target is len and len(args) == 1 and hasattr(args[0], "__sym_len__"):
+            yield args[0].__sym_len__, st
         elif target is bool and len(args) == 1:
             yield (truth(args[0]) if is_sym(args[0]) else bool(args[0])), st
         elif target is isinstance and len(args) == 2:
